@@ -170,3 +170,26 @@ def grid(prog, run):
                 why.append(astq.src(st, 60))
         run.ob("R-grid", pre.qual, "freq", ok, "freq is element 0 of SD_est's return on every assignment" if ok else
                f"freq is also assigned from `{'; '.join(why)}`", witness="; ".join(why)[:100], file=f, node=r)
+
+
+FD = "functions.fdd"
+MUTANTS = [
+    ("C04-m01 inverse dropped", FD, "SD_PreGER", "np.linalg.inv(Gyy[ii][:n_ref, :n_ref][:, :, ff])", "Gyy[ii][:n_ref, :n_ref][:, :, ff]"),
+    ("C04-m02 own reference block instead of the mean", FD, "SD_PreGER", "Gy_refref[:, :, ff]", "Gyy[ii][:n_ref, :n_ref][:, :, ff]", 1),
+    ("C04-m03 overlap not forwarded", FD, "SD_PreGER", "SD_est(Y_all, Y_ref, dt, nxseg, method, pov)", "SD_est(Y_all, Y_ref, dt, nxseg, method)", 1),
+    ("C04-m04 roving blocks before the reference block", FD, "SD_PreGER", "np.vstack([Gy_refref[:, :, ff], G2])", "np.vstack([G2, Gy_refref[:, :, ff]])"),
+    ("C04-m05 transfer block from the wrong corner", FD, "SD_PreGER", "Gyy[ii][n_ref:, :n_ref][:, :, ff]", "Gyy[ii][:n_ref, n_ref:][:, :, ff]"),
+    ("C04-m06 segment length not forwarded by FDD_MS", "algorithms.fdd", "FDD_MS.run", "fdd.SD_PreGER(Y, self.fs, nxseg=nxseg, method=method, pov=pov)", "fdd.SD_PreGER(Y, self.fs, method=method, pov=pov)"),
+    ("C04-m07 dt passed as fs", FD, "SD_PreGER", "dt = 1 / fs", "dt = fs"),
+    ("C04-m08 transposed inverse", FD, "SD_PreGER", "np.linalg.inv(Gyy[ii][:n_ref, :n_ref][:, :, ff])", "np.linalg.inv(Gyy[ii][:n_ref, :n_ref][:, :, ff]).T"),
+    ("C04-m09 boxcar window for the periodogram", FD, "SD_est", "'hann'", "'boxcar'"),
+    ("C04-m10 frequency vector rebuilt from nxseg", FD, "SD_PreGER", "return (freq, Sy)", "freq = np.arange(Sy.shape[2]) * fs / nxseg\nreturn (freq, Sy)"),
+    ("C04-m11 reference block = first setup only", FD, "SD_PreGER", "1 / n_setup * np.sum([Gyy[ii][:n_ref, :n_ref] for ii in range(n_setup)], axis=0)", "Gyy[0][:n_ref, :n_ref]"),
+    ("C04-m12 pov and method swapped in pLSCF_MS", "algorithms.plscf", "pLSCF_MS.run", "fdd.SD_PreGER(Y, self.fs, nxseg=nxseg, method=method, pov=pov)", "fdd.SD_PreGER(Y, self.fs, nxseg, method, pov)"),
+]
+REWRITES = [
+    ("rename:C04-r01", FD, "SD_PreGER", "Gy_refref", "ref_mean"),
+    ("C04-r02 solve instead of inverse", FD, "SD_PreGER", "np.dot(np.dot(Gyy[ii][n_ref:, :n_ref][:, :, ff], np.linalg.inv(Gyy[ii][:n_ref, :n_ref][:, :, ff])), Gy_refref[:, :, ff])",
+     "Gyy[ii][n_ref:, :n_ref][:, :, ff] @ np.linalg.inv(Gyy[ii][:n_ref, :n_ref][:, :, ff]) @ Gy_refref[:, :, ff]"),
+    ("C04-r03 keyword arguments to SD_est", FD, "SD_PreGER", "SD_est(Y_all, Y_mov, dt, nxseg, method, pov)", "SD_est(Y_all, Y_mov, dt, nxseg=nxseg, method=method, pov=pov)", 1),
+]
